@@ -40,7 +40,26 @@ func RunServer(t *testing.T, sc sim.Scenario, prefixes []string, nontrivial func
 	if lim > 0 && h.MaxRunning > lim {
 		probs = append(probs, Problem{Sig: "C06/limit-exceeded", Msg: fmt.Sprintf("%d handlers were executing at one instant, limit %d", h.MaxRunning, lim)})
 	}
+	// Model-based clauses lean on each other: the slot and reservation
+	// predicates assume that dispatch (C01) and the barrier (C03) behave, so
+	// they are not reported for a scenario that already shows such a problem
+	// (it is counted under other-clause instead; C01/C03 report it themselves).
+	basic, c01 := false, false
 	for _, p := range probs {
+		if strings.HasPrefix(p.Sig, "C01/") || strings.HasPrefix(p.Sig, "C03/") {
+			basic = true
+		}
+		if strings.HasPrefix(p.Sig, "C01/") {
+			c01 = true
+		}
+	}
+	for _, p := range probs {
+		if basic && (p.Sig == "C06/not-work-conserving" || strings.HasPrefix(p.Sig, "C07/")) {
+			continue
+		}
+		if c01 && (p.Sig == "C03/record-answered-before-barrier" || p.Sig == "C03/later-request-delayed") {
+			continue // attribution of outbound messages is not to be trusted in this scenario
+		}
 		for _, pre := range prefixes {
 			if strings.HasPrefix(p.Sig, pre) {
 				return engine.Failf(p.Sig, "%s\nscript:\n%s\nhistory:\n%s", p.Msg, ScriptText(sc), HistoryText(h))
